@@ -1,10 +1,11 @@
 #!/bin/bash
 # run_all.sh [tier] [seed]  - runs every registered check once, prints one line per check
 TIER=${1:-quick}; SEED=${2:-0}
-cd /verif
-for p in $(python3 -c "import json;print(' '.join(c['property_id'] for c in json.load(open('/verif/MANIFEST.json'))['checks']))"); do
+HERE=$(cd "$(dirname "$0")/.." && pwd)
+cd $HERE
+for p in $(python3 -c "import json;print(' '.join(c['property_id'] for c in json.load(open('MANIFEST.json'))['checks']))"); do
   s=$(date +%s)
-  out=$(VERIF_SEED=$SEED /venv/bin/python /verif/run.py $p --tier $TIER 2>&1); rc=$?
+  out=$(VERIF_SEED=$SEED /venv/bin/python $HERE/run.py $p --tier $TIER 2>&1); rc=$?
   e=$(date +%s)
   echo "$p rc=$rc $((e-s))s $(echo "$out" | grep -c '^VIOLATION') violations $(echo "$out" | grep -c '^KNOWN-FINDING') known; $(echo "$out" | grep -E 'HARNESS|VIOLATION' | head -2 | tr '\n' ' ')"
 done
